@@ -29,7 +29,7 @@ OBLIGATIONS = {
     "preempted_between_append_and_test": "a thread switch happened while a thread was inside recv_loop after receiving",
 }
 BOUND = {"quick": "all interleavings, no preemption bound: 2 peers x 1 msg at every p2p.py line for the 16 pairs over {ping,version,inv,unknown}, at Node.*+recv_msg lines for the other 20 pairs and for 8 2x2 scripts; 3x1 at Node.* lines with preemption bound 2 (12 scripts)",
-         "thorough": "every p2p.py line for all 36 2x1 pairs and 32 2x2 scripts; 2x3 over {ping,inv} at Node.*+recv_msg lines; 3x1 Node.* lines (64) and all lines with preemption bound 2 (27); 2x1 with opcode-level points in Node.*"}
+         "thorough": "every p2p.py line for all 36 2x1 pairs and 32 2x2 scripts; 2x3 over {ping,inv} at Node.*+recv_msg lines; 3x1 Node.* lines (64) and all lines with preemption bound 2 (27); 2x1 with opcode-level points inside Node.recv_loop and preemption bound 2"}
 MAGIC = b"\xF9\xBE\xB4\xD9"
 
 
@@ -274,7 +274,7 @@ def jobs(tier, seed):
             js.append({"name": f"3x1-node/{a}|{b}|{c}", "script": [[a], [b], [c]], "scope": "node", "weight": 60})
     if tier == "thorough":
         for a, b in itertools.product(["ping", "inv"], repeat=2):
-            js.append({"name": f"2x1-opcode/{a}|{b}", "script": [[a], [b]], "opcodes": True, "scope": "node", "weight": 30})
+            js.append({"name": f"2x1-opcode-pb2/{a}|{b}", "script": [[a], [b]], "opcodes": True, "scope": "node", "bound": 2, "nocache": True, "weight": 80})
         for a in itertools.product(["ping", "inv"], repeat=3):
             for b in itertools.product(["ping", "inv"], repeat=3):
                 js.append({"name": f"2x3-mid/{'+'.join(a)}|{'+'.join(b)}", "script": [list(a), list(b)], "scope": "mid", "weight": 40})
